@@ -1399,7 +1399,12 @@ class Interp:
             return self.subscript(container, node.slice, frame)
         if kind is ast.JoinedStr:
             return Opaque("str", True if any(isinstance(v, ast.Constant) and v.value for v in node.values) else None)
-        if kind in (ast.ListComp, ast.GeneratorExp, ast.SetComp):
+        if kind is ast.GeneratorExp:
+            # lazy, like the real thing: all(f(x) for x in xs) stops calling f at the first false result
+            lazy = _Iter(None)
+            lazy.generator = self.eval_comprehension(node, frame)
+            return lazy
+        if kind in (ast.ListComp, ast.SetComp):
             items = list(self.eval_comprehension(node, frame))
             if kind is ast.SetComp:
                 return set(items)
